@@ -27,7 +27,7 @@ ASSUMPTIONS = [
     'format specs used in keys render fixed-width text for the generated domain (e.g. {n:04d} over 0..9999)',
 ]
 BUDGET = {'quick': dict(examples=1200, shards=8, seconds=70),
-          'thorough': dict(examples=30000, shards=16, seconds=1500)}
+          'thorough': dict(examples=30000, shards=16, seconds=1200)}
 
 STR_POOL = ['a', 'a0', 'a00', 'a1', 'ab', 'abc', 'b', 'B', 'a ', 'é', 'z', '', '0', '00', 'f', 'ff', 'a\U0001F600', 'aé', '~', 'a~']
 
@@ -51,6 +51,7 @@ KEYS = [
     ('tuple', ['n2', 's']),
     ('fmt', '{n1}'), ('fmt', '{s}'), ('fmt', '{n1}{s}'), ('fmt', '{n1}|{n2}'), ('fmt', '{n1}:{n2}:{s}'),
     ('fmt', 'k-{s}'), ('fmt', '{i:04d}'), ('fmt', '{i:04d}/{s}'), ('fmt', '{n1}-{i:04d}'),
+    ('fmt', '{n 3}'), ('fmt', '{n 3}|{s}'), ('list', ['n 3', 's']), ('fmt', '{n-4}:{n 3}'),
     ('callable', 's'), ('callable', 'i'),
 ]
 
@@ -82,10 +83,15 @@ def big_case(draw):
             'batch2': 1000}
 
 
+@st.composite
+def _mix(draw, tier):
+    if gen.rare(draw, 30 if tier == 'thorough' else 5):
+        return draw(big_case())
+    return draw(small_case())
+
+
 def cases(tier):
-    if tier == 'thorough':
-        return st.one_of(*([small_case()] * 30 + [big_case()]))
-    return st.one_of(*([small_case()] * 200 + [big_case()]))
+    return _mix(tier)
 
 
 def big_rows(c):
@@ -149,6 +155,7 @@ def ref_keys(comps, row):
 
 def run_sort(rows, key, reverse, batch):
     flds = [{'name': '_i', 'type': 'integer'}, {'name': 'n1', 'type': 'any'}, {'name': 'n2', 'type': 'any'},
+            {'name': 'n 3', 'type': 'any'}, {'name': 'n-4', 'type': 'any'},
             {'name': 's', 'type': 'string'}, {'name': 'i', 'type': 'integer'}]
     pkg = [{'name': 'res1', 'fields': flds, 'rows': rows},
            {'name': 'other', 'fields': [{'name': 'q', 'type': 'integer'}], 'rows': [{'q': 3}, {'q': 1}, {'q': 2}]}]
@@ -164,6 +171,8 @@ def check(case, ctx):
     rows = copy.deepcopy(case['rows']) if case['size'] == 'small' else big_rows(case)
     for i, r in enumerate(rows):
         r['_i'] = i
+        r['n 3'] = r['n1']          # numeric key fields whose names are not plain identifiers
+        r['n-4'] = r['n2']
     comps = components(case['kind'], case['spec'])
     keyed = [ref_keys(comps, r) for r in rows]
     classes = [case['size'], 'key:' + case['kind']]
